@@ -101,12 +101,14 @@ def build(tier):
         nonlocal env, rec
         env.__init__()
         rec.__init__()
+        cur["rec"] = rec
         ex_index[0] = z3.Int("index")
         st.locals.update(dict(env=env, pipe=rec, index=ex_index[0], agents=list(AGENTS), shared_memory=Opaque("shm"),
                               observation_space={a: Opaque("space") for a in AGENTS},
                               data=[z3.Int("act0"), z3.Int("act1")], command="step", env_fn=Opaque("env_fn"),
                               parent_pipe=Opaque("pp"), error_queue=Opaque("eq")))
-    P.lib[VEC + "write_to_shared_memory"] = lambda ex, st, a, k: rec.published.append((a[0], a[1]))
+    cur = {"rec": rec}
+    P.lib[VEC + "write_to_shared_memory"] = lambda ex, st, a, k: cur["rec"].published.append((a[0], a[1]))
     P.lib[VEC + "get_placeholder_value"] = placeholder
     P.lib["numpy.array"] = lambda ex, st, a, k: a[0]
     P.specns["worker_post"] = worker_post(env, rec)
@@ -114,6 +116,144 @@ def build(tier):
                region=region("data = {", "pipe.send(((reward"),
                params={}, requires=[], frame_fields=False,
                ensures=["worker_post()"], replay="c12:vecenv")
+
+    # the same step branch when the environment keys its termination and truncation dicts in a different order (PettingZoo does
+    # not fix the order): the flags of ONE agent have to be combined, not the flags at the same position
+    env2, rec2 = Env(), Recorder()
+
+    def setup_order(ex, st, fr):
+        env2.__init__()
+        rec2.__init__()
+        cur["rec"] = rec2
+        env2.tr = {a: env2.tr[a] for a in reversed(AGENTS)}
+        ex_index[0] = z3.Int("index")
+        st.locals.update(dict(env=env2, pipe=rec2, index=ex_index[0], agents=list(AGENTS), shared_memory=Opaque("shm"),
+                              observation_space={a: Opaque("space") for a in AGENTS}, action_shape={a: () for a in AGENTS},
+                              data=[z3.Int("act0"), z3.Int("act1")], command="step", env_fn=Opaque("env_fn"),
+                              parent_pipe=Opaque("pp"), error_queue=Opaque("eq")))
+    wp2 = worker_post(env2, rec2)
+    P.specns["worker_post_order"] = wp2
+    P.contract(VEC + "_async_worker", variant="step-branch-key-order", setup=setup_order,
+               region=region("observation, reward, terminated, truncated, info = env.step(data)", "pipe.send(((reward"),
+               params={}, requires=[], frame_fields=False, ensures=["worker_post_order()"], replay="c12:keyorder")
+
+    # shared-memory allocation: every dtype a gymnasium space can declare gets a buffer of num_envs * prod(shape) elements
+    CTYPES_CODES = set("cbBhHiIlLqQfd")         # multiprocessing's typecode_to_type (trusted library contract); anything else raises TypeError
+
+    class Ctx:
+        def getattr(self, ex, st, name):
+            if name == "Array":
+                def array(ex, st, a, k):
+                    tc = a[0]
+                    if isinstance(tc, str) and tc not in CTYPES_CODES:
+                        raise __import__("pyvc.values", fromlist=["PyRaise"]).PyRaise("TypeError")
+                    return ("shared-array", tc, a[1])
+                return Fn(model=array, name=name)
+            raise Undecided(name)
+
+    class DT:
+        def __init__(self, char):
+            self.char = char
+
+        def getattr(self, ex, st, name):
+            if name == "char":
+                return self.char
+            raise Undecided(name)
+
+    class SpaceD:
+        def __init__(self, char):
+            self.dt = DT(char)
+
+        def getattr(self, ex, st, name):
+            if name == "dtype":
+                return self.dt
+            if name == "shape":
+                return (2, 3)
+            raise Undecided(name)
+    P.lib["ctypes.c_bool"] = lambda ex, st, a, k: "c_bool"
+    NE = z3.Int("num_envs")
+    P.specns["sized"] = lambda r, n: z3.And(z3.BoolVal(isinstance(r, tuple) and r[0] == "shared-array"), z3ify(r[2]) == 6 * z3ify(n)) if isinstance(r, tuple) else z3.BoolVal(False)
+    for nm, ch in (("bool", "?"), ("int8", "b"), ("uint8", "B"), ("int16", "h"), ("int32", "i"), ("int64", "l"), ("uint64", "L"), ("float32", "f"), ("float64", "d")):
+        P.contract(VEC + "_create_memory_array", variant=f"dtype-{nm}", params={"num_envs": "int", "obs_space": (lambda ex, st, l, ch=ch: SpaceD(ch)), "context": (lambda ex, st, l: Ctx())},
+                   requires=["num_envs >= 1"], modifies=[], raises={}, raises_iff=True, ensures=["sized(result, num_envs)"], replay="c12:dtypes")
+
+    # the actions handed to env.step: each agent's action arrives with the shape of ITS action space and its own values
+    from . import ndt
+    from .ndt import ND
+    AV = z3.Function("action_value", z3.IntSort(), z3.IntSort(), z3.RealSort())
+    kinds = {"box1": (1,), "box1x2": (1, 2), "box3": (3,), "scalar": (), "multidiscrete1": (1,)}
+    for kname, shape in kinds.items():
+        got = {}
+
+        def setup_a(ex, st, fr, shape=shape, got=got):
+            got.clear()
+            e = Env()
+            e_get = e.getattr
+
+            def env_getattr(ex, st, name):
+                if name == "step":
+                    def step(ex, st, a, k):
+                        got.update(a[0])
+                        return (dict(e.o1), dict(e.r1), dict(e.te), dict(e.tr), dict(e.i1))
+                    return Fn(model=step, name="step")
+                return e_get(ex, st, name)
+            e.getattr = env_getattr
+            acts = [ND(list(shape), (lambda idx, i=i: AV(z3.IntVal(i), ndt.ravel(idx, list(shape)) if shape else z3.IntVal(0))), "action", True) for i in range(2)]
+            acts[1] = 1 if shape == () else acts[1]          # a Discrete agent next to it: python int passes through
+            st.locals.update(dict(env=e, pipe=Recorder(), index=z3.Int("index"), agents=list(AGENTS), shared_memory=Opaque("shm"),
+                                  observation_space={a: Opaque("space") for a in AGENTS}, action_shape={a: tuple(shape) for a in AGENTS},
+                                  data=acts, command="step", env_fn=Opaque("env_fn"), parent_pipe=Opaque("pp"), error_queue=Opaque("eq")))
+
+        def act_post(shape=shape, got=got):
+            if set(got) != set(AGENTS):
+                return z3.BoolVal(False)
+            out = []
+            for i, a in enumerate(AGENTS):
+                v = got[a]
+                if isinstance(v, int):
+                    out.append(z3.BoolVal(shape == () and i == 1 and v == 1))
+                    continue
+                if not isinstance(v, ND) or len(v.shape) != len(shape) or any(ndt.cp(x) != (y, None) for x, y in zip(v.shape, shape)):
+                    return z3.BoolVal(False)                                      # the sub-environment sees another shape than when stepped alone
+                n = 1
+                for d in shape:
+                    n *= d
+                out += [v.flat(z3.IntVal(k)) == AV(z3.IntVal(i), z3.IntVal(k)) for k in range(n)]
+            return z3.And(*out)
+        P.specns[f"act_post_{kname}"] = act_post
+        P.contract(VEC + "_async_worker", variant=f"step-actions-{kname}", setup=setup_a,
+                   region=region("data = {", "observation, reward, terminated, truncated, info = env.step(data)"),
+                   params={}, requires=[], frame_fields=False, ensures=[f"act_post_{kname}()"], replay="c12:actions")
+    P.trusted.append(ndt.DOC)
+
+    # PettingZooVecEnv.step: the batch of actions is split per environment without changing any value (continuous scalars stay floats)
+    sent = []
+
+    def vec_self(ex, st, label):
+        sent.clear()
+        o = Obj("agilerl.vector.pz_vec_env.PettingZooVecEnv", label="self")
+        o.fields.update(dict(agents=list(AGENTS), num_envs=2, step_async=Fn(model=lambda ex, st, a, k: sent.append(a[0]), name="step_async"),
+                             step_wait=Fn(model=lambda ex, st, a, k: Opaque("step-result"), name="step_wait")))
+        return o
+    FA = [[z3.Real("cont_action_env0"), z3.Real("cont_action_env1")], [z3.Int("disc_action_env0"), z3.Int("disc_action_env1")]]
+    P.lib["numpy.isscalar"] = lambda ex, st, a, k: isinstance(a[0], (int, float, z3.ArithRef)) and not isinstance(a[0], bool)
+
+    def split_post():
+        if len(sent) != 1 or not isinstance(sent[0], list) or len(sent[0]) != 2:
+            return z3.BoolVal(False)
+        out = []
+        for e in range(2):
+            row = sent[0][e]
+            if not isinstance(row, list) or len(row) != 2:
+                return z3.BoolVal(False)
+            for ai in range(2):
+                v, w = z3ify(row[ai]), FA[ai][e]
+                v, w = (z3.ToReal(v) if v.sort() == z3.IntSort() else v), (z3.ToReal(w) if w.sort() == z3.IntSort() else w)
+                out.append(v == w)
+        return z3.And(*out)
+    P.specns["split_post"] = split_post
+    P.contract("agilerl.vector.pz_vec_env.PettingZooVecEnv.step", params={"self": vec_self, "actions": (lambda ex, st, l: {AGENTS[0]: list(FA[0]), AGENTS[1]: list(FA[1])})},
+               requires=[], frame_fields=False, ensures=["split_post()"], replay="c12:actions")
 
     # process_transition: own value if present else placeholder, for every name and every agent
     for variant, present in (("all-present", AGENTS), ("agent_0-missing", ["agent_1"]), ("nobody", [])):
@@ -223,7 +363,7 @@ def build(tier):
         buf.__init__()
         st.assume(z3.And(NE >= 1, SZ >= 1, 0 <= IDX, IDX < NE))
         st.locals.update(dict(index=IDX, observation={"agent_0": FlatObs()}, shared_memory={"agent_0": buf}, obs_space={"agent_0": SpaceM()}))
-    P.lib["numpy.prod"] = lambda ex, st, a, k: SZ
+    P.lib["numpy.prod"] = lambda ex, st, a, k: (__import__("math").prod(a[0]) if isinstance(a[0], tuple) and all(isinstance(x, int) for x in a[0]) else SZ)
     P.lib["numpy.frombuffer"] = lambda ex, st, a, k: a[0]
     P.lib["numpy.copyto"] = copyto
     P.lib["numpy.asarray"] = lambda ex, st, a, k: a[0]
@@ -274,6 +414,11 @@ def build(tier):
                ensures=["obs_post(result)"], replay="c12:vecenv")
     P.trusted += ["numpy: frombuffer is a view of the shared array; dest[a:b] is a view; copyto writes element-wise; reshape((n, s)) of a flat buffer is C-order "
                   "(element (i,k) = flat[i*s+k]) - so worker i's slice [i*s,(i+1)*s) is exactly what position i of the returned array reads"]
+    for nm, bound, quick in (("actions", "4 action-space layouts (Box (1,), (1,2), (3,), (); Discrete; MultiDiscrete [5], [3,2]), 3 envs: values, shapes, float kind", False),
+                             ("keyorder", "2 environments whose termination/truncation dicts differ in order / key set, 5 steps, vs. the auto-reset wrapper", False),
+                             ("dtypes", "observation dtypes bool, int8..int64, uint8, uint64, float32, float64 as top-level Box and Dict member", False),
+                             ("declared", "returned batches vs. the declared batched observation space: Discrete (plain, Dict member, Tuple member), Box, image, MultiDiscrete, MultiBinary", True)):
+        P.native.append(dict(name=nm, adapter=f"c12:{nm}", bound=bound, payload={"mode": "search"}, thorough_only=not quick))
     P.native.append(dict(name="vecenv", adapter="c12:vecenv", thorough_only=True,
                          bound="8 scripted scenarios: 1-3 sub-envs, episode lengths 1-6, ends by termination / truncation / mixed, agent leaving early, copy on/off",
                          payload={"mode": "search"}))
